@@ -24,7 +24,7 @@ var (
 	}()
 	profC05 = withPrelude(eng.ProfileFull("C05", map[string]int{"put": 16, "take": 14, "bankSend": 8, "basketCreate": 5, "createBatch": 8, "bulkBasket": 1}),
 		"createClass", "createProject", "createBatch", "createBatch", "basketCreate", "basketCreate", "put", "put", "put", "bankSend", "block")
-	_ = func() int { profC05.VestingPct = 10; return 0 }()
+	_       = func() int { profC05.VestingPct = 10; return 0 }()
 	profC13 = withPrelude(eng.ProfileFull("C13", map[string]int{"createBatch": 9, "mint": 9, "bridgeReceive": 12, "bridge": 9, "addBridgeChain": 3, "removeBridgeChain": 2}),
 		"createClass", "addBridgeChain", "bridgeReceive", "bridgeReceive", "createProject", "createBatch", "mint", "bridge", "block")
 	profC14 = func() *eng.Profile {
